@@ -110,6 +110,9 @@ def render(template_path, repo, canary_fn=None, canary_kind='post'):
 
 def _clean_struct(text):
     out = []
+    # X3 for type definitions: a restricted visibility (`pub(crate) enum ..`) becomes `pub` (all modules are flattened into one
+    # file; Verus refuses open spec items of a type that is less visible than `pub`)
+    text = re.sub(r'^(\s*)pub\([^)]*\)(\s+(?:struct|enum)\b)', r'\1pub\2', text, count=1)
     for l in text.split('\n'):
         s = l.strip()
         if s.startswith('///') or s.startswith('#[') or s.startswith('//'):
